@@ -18,7 +18,7 @@ TOL = 1e-9
 
 def is_sym(*xs):
     for x in xs:
-        if isinstance(x, (SBool, SInt, SReal, SBV, A.SArr)) or hasattr(x, "_pyvc_symbolic"):
+        if isinstance(x, (SBool, SInt, SReal, SBV, A.SArr, A.SArr2)) or hasattr(x, "_pyvc_symbolic"):
             return True
     return False
 
@@ -154,7 +154,26 @@ def el(a, j):
     """a[j] without bounds obligation (spec level)"""
     if isinstance(a, A.SArr):
         return a.kind.wrap(a.at(A._zi(j)))
-    return a[int(j)]
+    j = int(j)
+    if j < 0 or j >= len(a):
+        return float("nan")      # spec-level "don't care": only reachable under a false guard (both ite branches are evaluated natively)
+    return a[j]
+
+
+def el2(a, i, j):
+    """a[i, j] of a 2-D array without bounds obligation (spec level)"""
+    if isinstance(a, A.SArr2):
+        return a.kind.wrap(a.at(i, j))
+    i, j = int(i), int(j)
+    if i < 0 or j < 0 or i >= a.shape[0] or j >= a.shape[1]:
+        return float("nan")
+    return a[i, j]
+
+
+def shape2(a):
+    if isinstance(a, A.SArr2):
+        return a.shape
+    return tuple(int(v) for v in a.shape)
 
 
 def size(a):
